@@ -117,6 +117,8 @@ def state_invariants(rep, tname):
                 if nbit(r) in allowed_copy:
                     continue
                 b = guarded_by_le(fn, x, nbit(r))
+                if b is not None:
+                    b = ir_strip(ir.resolve_let(fn, b))     # bounds hoisted into immutable lets are the same bounds (configuration fields do not change)
                 if b is None and is_path(r):
                     # relative setter: new_ratio = original * rel, stored under `rel <= self.max_relative_ratio`
                     bd = ir.binding_of(fn, r, r["p"])
